@@ -15,13 +15,13 @@ env = dict(os.environ, PYTHONPATH=f"{src}/src", PSYCLONE_CONFIG=f"{src}/config/p
 demo = [f for f in os.listdir(dst) if f.startswith("demo_")]
 demo_rc = subprocess.run(["/venv/bin/python", os.path.join(src, demo[0])], env=env, cwd=src, stdout=subprocess.PIPE, stderr=subprocess.STDOUT, text=True).returncode if demo else None
 r = subprocess.run(["./check", pid], cwd="/verif", env=dict(os.environ, VERIF_REPO=src), stdout=subprocess.PIPE, stderr=subprocess.STDOUT, text=True)
-lines = [l for l in r.stdout.splitlines() if l.startswith("VIOLATION") or l.startswith(pid)]
+lines = [l for l in r.stdout.splitlines() if l.startswith("VIOLATION") or l.startswith(pid + " ")]
 meta = {"property": pid, "source": "fresh sub-agent given only the property text and a scratch worktree",
         "needs": needs, "demo": demo, "demo_exit_with_change": demo_rc,
         "ran": f"VERIF_REPO={src} ./check {pid}  (worktree of /repo HEAD with patch.diff applied)",
         "check_exit": r.returncode, "check_output": lines[:6],
         "detected": r.returncode == 1 and any("VIOLATION" in l for l in lines),
-        "failing_input_found": any("VIOLATION" in l and "no-failing-input-found" not in l for l in lines)}
+        "failing_input_found": any(l.startswith("VIOLATION") and "no-failing-input-found" not in l for l in lines)}
 json.dump(meta, open(os.path.join(dst, "meta.json"), "w"), indent=1)
 print(json.dumps(meta, indent=1))
 subprocess.run(["git", "-C", "/repo", "worktree", "remove", "--force", src])
